@@ -37,11 +37,6 @@ let load file =
 
 let () = if Array.length Sys.argv > 1 then load Sys.argv.(1)
 
-let show_rows rows =
-  let l = List.map (fun (h, t) -> hex_of_bytes h ^ ":" ^ hex_of_bytes t) rows in
-  let l = List.sort compare l in
-  if l = [] then "-" else String.concat "," l
-
 let () = main_loop (function
   | ["np"; h] -> "np " ^ hex_of_bytes (normalize (bytes_of_hex h))
   | ["npi"; h] -> "npi " ^ hex_of_bytes (normalize_ip (bytes_of_hex h))
@@ -53,7 +48,7 @@ let () = main_loop (function
          (match fs_handle !fs cfg (bytes_of_hex h) with
           | R404 -> "rq 404"
           | RRedirect l -> "rq 302 " ^ hex_of_bytes l
-          | RListing (t, p, rows) -> "rq list " ^ hex_of_bytes t ^ " " ^ string_of_bool p ^ " " ^ show_rows rows
+          | RListing (t, p, rows) -> "rq list " ^ hex_of_bytes (listing_page t p rows)
           | RFile (p, e) ->
               (match fs_file_id !fs p with
                | Some id -> "rq file " ^ string_of_int (int_of_n id) ^ " " ^ hex_of_bytes e
